@@ -47,6 +47,17 @@ const MAX_BINARY_SIZE: usize = 100_000_000;
 /// of the decoding thread (about 2 300 levels on a 2 MiB stack in an optimised build).
 const MAX_NESTING_DEPTH: usize = 256;
 
+/// Largest number of elements reserved up front for a container whose size comes from the wire.
+/// Containers nest: reserving for every byte that is left at each of up to `MAX_NESTING_DEPTH` levels
+/// multiplies the reservation by the depth, so the hint is small and larger containers grow as
+/// their elements actually arrive.
+const MAX_PREALLOCATED_ELEMENTS: usize = 32;
+
+#[inline]
+fn reserve_hint(count: usize, remaining_bytes: usize) -> usize {
+    count.min(remaining_bytes).min(MAX_PREALLOCATED_ELEMENTS)
+}
+
 thread_local! {
     static NESTING_DEPTH: Cell<usize> = const { Cell::new(0) };
 }
@@ -659,7 +670,7 @@ fn parse_small_tuple<'a>(input: &'a [u8], cache: &AtomCache) -> NomResult<'a, Ow
     }
     let mut remaining = input;
     // a wire-supplied count must not drive the allocation: each element takes >= 1 byte
-    let mut elements = Vec::with_capacity((arity as usize).min(remaining.len()));
+    let mut elements = Vec::with_capacity(reserve_hint(arity as usize, remaining.len()));
 
     for _ in 0..arity {
         let (new_remaining, term) = parse_term(remaining, cache)?;
@@ -676,7 +687,7 @@ fn parse_large_tuple<'a>(input: &'a [u8], cache: &AtomCache) -> NomResult<'a, Ow
         return Err(nom::Err::Failure(NomError::new(input, ErrorKind::TooLarge)));
     }
     let mut remaining = input;
-    let mut elements = Vec::with_capacity((arity as usize).min(remaining.len()));
+    let mut elements = Vec::with_capacity(reserve_hint(arity as usize, remaining.len()));
 
     for _ in 0..arity {
         let (new_remaining, term) = parse_term(remaining, cache)?;
@@ -703,7 +714,7 @@ fn parse_list<'a>(input: &'a [u8], cache: &AtomCache) -> NomResult<'a, OwnedTerm
         return Err(nom::Err::Failure(NomError::new(input, ErrorKind::TooLarge)));
     }
     let mut remaining = input;
-    let mut elements = Vec::with_capacity((len as usize).min(remaining.len()));
+    let mut elements = Vec::with_capacity(reserve_hint(len as usize, remaining.len()));
 
     for _ in 0..len {
         let (new_remaining, term) = parse_term(remaining, cache)?;
@@ -949,7 +960,7 @@ fn parse_new_fun_ext<'a>(input: &'a [u8], cache: &AtomCache) -> NomResult<'a, Ow
     };
 
     let mut remaining = input;
-    let mut free_vars = Vec::with_capacity((num_free as usize).min(remaining.len()));
+    let mut free_vars = Vec::with_capacity(reserve_hint(num_free as usize, remaining.len()));
     for _ in 0..num_free {
         let (new_remaining, term) = parse_term(remaining, cache)?;
         free_vars.push(term);
@@ -1108,7 +1119,7 @@ fn parse_small_tuple_borrowed<'a>(
         return Err(nom::Err::Failure(NomError::new(input, ErrorKind::TooLarge)));
     }
     let mut remaining = input;
-    let mut elements = Vec::with_capacity((arity as usize).min(remaining.len()));
+    let mut elements = Vec::with_capacity(reserve_hint(arity as usize, remaining.len()));
 
     for i in 0..arity {
         ctx.push(PathSegment::TupleElement(i as usize));
@@ -1131,7 +1142,7 @@ fn parse_large_tuple_borrowed<'a>(
         return Err(nom::Err::Failure(NomError::new(input, ErrorKind::TooLarge)));
     }
     let mut remaining = input;
-    let mut elements = Vec::with_capacity((arity as usize).min(remaining.len()));
+    let mut elements = Vec::with_capacity(reserve_hint(arity as usize, remaining.len()));
 
     for i in 0..arity {
         ctx.push(PathSegment::TupleElement(i as usize));
@@ -1164,7 +1175,7 @@ fn parse_list_borrowed<'a>(
         return Err(nom::Err::Failure(NomError::new(input, ErrorKind::TooLarge)));
     }
     let mut remaining = input;
-    let mut elements = Vec::with_capacity((len as usize).min(remaining.len()));
+    let mut elements = Vec::with_capacity(reserve_hint(len as usize, remaining.len()));
 
     for i in 0..len {
         ctx.push(PathSegment::ListElement(i as usize));
@@ -1433,7 +1444,7 @@ fn parse_new_fun_ext_borrowed<'a>(
     };
 
     let mut remaining = input;
-    let mut free_vars = Vec::with_capacity((num_free as usize).min(remaining.len()));
+    let mut free_vars = Vec::with_capacity(reserve_hint(num_free as usize, remaining.len()));
     for i in 0..num_free {
         ctx.push(PathSegment::FunFreeVar(i as usize));
         let (new_remaining, term) = parse_term_borrowed(remaining, original_len, ctx)?;
